@@ -91,6 +91,17 @@ def opt(x):
     return '~' if x is None else str(x)
 
 
+def timer_interval(t):
+    """interval of a timer in clock ticks as the specification sees it.  A timer given an absolute datetime
+    deadline (virtual clock tick `deadline`, which may fall inside a second) counts at whole-second resolution:
+    it is a timer whose interval is (start of the deadline's second) - (clock at creation), and due at once when
+    that lies in the past.  `created_at` is filled in by the harness when the implementation creates the timer."""
+    if t.get('deadline') is None:
+        return t['interval']
+    whole = (t['deadline'] // 64) * 64
+    return max(0, whole - t.get('created_at', 0))
+
+
 def act_tokens(a):
     k = a[0]
     if k == 'fire':
@@ -167,7 +178,7 @@ def model_lines(sc, impl_log=None, ops=None):
                 L.append(f'install {hid}')
         if c.get('timer') is not None:
             t = c['timer']
-            L.append(f"timer {tid} {t['interval']} {1 if t['persist'] else 0} {t['tmpl']} {opt(t.get('target'))} {ci} {t['parent']}")
+            L.append(f"timer {tid} {timer_interval(t)} {1 if t['persist'] else 0} {t['tmpl']} {opt(t.get('target'))} {ci} {t['parent']}")
             tid += 1
     for c in sc.get('setexec', []):
         L.append(f'setexec {c} 1')
@@ -485,7 +496,13 @@ class World:
         spec = self.sc['comps'][idx]['timer']
         ev = self.mk_event(spec['tmpl'])
         chans = () if spec.get('target') is None else (self.chan_py(spec['target']),)
-        tm = Timer(spec['interval'] * TICK, ev, *chans, persist=spec['persist'])
+        if spec.get('deadline') is not None:
+            import circuits.core.timers as timers_mod
+            spec['created_at'] = self.clock
+            when = timers_mod.datetime.fromtimestamp(spec['deadline'] * TICK)
+            tm = Timer(when, ev, *chans, persist=spec['persist'])
+        else:
+            tm = Timer(spec['interval'] * TICK, ev, *chans, persist=spec['persist'])
         tm.channel = self.chan_py(self.sc['comps'][idx].get('chan', '*'))
         self.comps[idx] = tm
         while len(self.timers) <= t:
@@ -651,6 +668,19 @@ class World:
                 pass
 
         saved = (helpers.Event, helpers.stderr, manager.stderr, manager.TIMEOUT, manager.time, timers.time)
+        saved_dt = timers.datetime
+
+        class VDateTime(saved_dt):
+            """datetime on the virtual clock: now() reads the harness clock (the code may ask either time() or
+            datetime.now() for the present)"""
+            @classmethod
+            def now(cls, tz=None):
+                return cls.fromtimestamp(world.clock * TICK, tz)
+
+            @classmethod
+            def utcnow(cls):
+                return cls.utcfromtimestamp(world.clock * TICK)
+
         import signal as _signal
         old_int, old_term = _signal.getsignal(_signal.SIGINT), _signal.getsignal(_signal.SIGTERM)
         import circuits.core.events as cevents
@@ -666,6 +696,7 @@ class World:
         manager.TIMEOUT = self.sc.get('timeoutticks', 8) * TICK
         manager.time = lambda: world.clock * TICK
         timers.time = lambda: world.clock * TICK
+        timers.datetime = VDateTime
         try:
             yield
         finally:
@@ -676,6 +707,7 @@ class World:
             Manager.registerTask = o_rt
             EQ.dispatchEvents = o_de
             (helpers.Event, helpers.stderr, manager.stderr, manager.TIMEOUT, manager.time, timers.time) = saved
+            timers.datetime = saved_dt
             if threading.current_thread() is threading.main_thread():
                 _signal.signal(_signal.SIGINT, old_int)
                 _signal.signal(_signal.SIGTERM, old_term)
